@@ -6,6 +6,12 @@ ALL = ["C%02d" % i for i in range(1, 37)]
 
 # id -> (design section, technique, level text, level note)
 CLAIMED = {
+ "C27": ("§2 C27", "SSA provenance (ownership) analysis: backward origin walk through phi/slice/append/field/extract with reaching stores for local structs, captured-variable cells, return summaries and writes-through summaries to a fixpoint; AST checks of the overlay direction",
+  "Decides that no code path of interp/expand/internal writes through variable storage it shares with another shell: every element store, map update, delete, clear, copy, in-place slices/sort call and append on a variable's list, indexes or map, or on the positional parameters, must act on storage created in the same activation; handing such storage to a callee that stores through its parameter is judged at the call site. Also that subshell() gives the copy fresh maps/slices/environment except a named table of fields shared by design, that background copies copy every variable, and that overlays write to their parent only in function scope. The analysis found the in-place array append on the pinned tree (repaired by a fix: commit). Runs on six build configurations in the thorough tier.",
+  "Sound relative to: no reflection/unsafe in these packages (checked); storage returned by Environ.Get/lookupVar/Resolve or received as a parameter is treated as shared, clones/makes/literals as owned; stdlib aliasing and mutating helpers come from an explicit table. Does not decide isolation of cd/options/traps beyond by-value copies."),
+ "C29": ("§2 C29", "the same SSA provenance analysis applied to syntax-tree storage (field stores, whole-value stores, element stores, appends, calls of functions that store through a node parameter), with a coinductive callback-argument analysis; AST enumeration of Runner.Env uses and writeEnv assignments",
+  "Decides that the interpreter and expansion code never store into a syntax tree they were given: each store into a node, each element store/append on node slices and each call of a mutator such as SplitBraces acts on a copy or literal of the same activation, including inside callbacks (every invocation is shown to pass a fresh node). Decides that Runner.Env is only read (Get/Each, parent link of overlays) and never asserted to a writable environment, and that writeEnv is always an interpreter-created overlay.",
+  "No reflection/unsafe in interp/expand/shell (checked). User-supplied handlers are outside the analysis."),
  "C07": ("§2 C07", "forward dataflow of 'bytes known present-or-EOF' over the lexer's decomposed-condition CFG, with summaries for fill/peek/peekTwo, per-call-site analysis of peekTwo, refill-cycle detection for unbounded lookahead, must-pass-through in fill",
   "Decides the necessary condition that every lookahead past the current rune is covered by a refill (or end of input) regardless of how Read chunked the bytes: each index of the read buffer, each acted-upon 'no bytes buffered' test and each open-ended forward slice is an obligation. A lookahead that only inspects what happens to be buffered gives different answers for different chunkings, whatever the input. Found four such sites on the pinned tree (two repaired by fix: commits, two listed as known findings). Also decides that fill() keeps bytes returned together with an error.",
   "Does not decide equality of whole trees/positions under chunking, nor the correctness of fill's sliding of unread bytes (read). Assumes fill returns 0 only at EOF or error."),
